@@ -46,10 +46,12 @@ pub mod verif {
 
     thread_local! {
         static LOG: RefCell<Option<Vec<Event>>> = const { RefCell::new(None) };
+        static COMMITS: std::cell::Cell<usize> = const { std::cell::Cell::new(0) };
     }
 
     pub fn start() {
         LOG.with(|l| *l.borrow_mut() = Some(Vec::new()));
+        COMMITS.with(|c| c.set(0));
     }
 
     pub fn take() -> Vec<Event> {
@@ -57,6 +59,9 @@ pub mod verif {
     }
 
     pub fn emit(event: Event) {
+        if matches!(event, Event::Commit { .. }) {
+            COMMITS.with(|c| c.set(c.get() + 1));
+        }
         LOG.with(|l| {
             if let Some(log) = l.borrow_mut().as_mut() {
                 log.push(event)
@@ -66,17 +71,7 @@ pub mod verif {
 
     /// number of Commit events logged since `start`
     pub fn commits() -> usize {
-        LOG.with(|l| {
-            l.borrow().as_ref().map_or(0, |log| {
-                log.iter()
-                    .rev()
-                    .find_map(|e| match e {
-                        Event::Commit { depth, .. } => Some(*depth as usize + 1),
-                        _ => None,
-                    })
-                    .unwrap_or(0)
-            })
-        })
+        COMMITS.with(|c| c.get())
     }
 }
 
